@@ -24,7 +24,7 @@ W = [
   {'b': {'$all': [{'$elemMatch': {'$eq': 2}}]}}, {'b': 2}, 'F'),
  ('allmulticand', "$all over several candidates does not search the array-valued ones (TypeError when the first one is an array and another is not iterable): {'a.b': {$all: [2]}} misses {a: [{b: 1}, {b: [2, 3]}]}",
   {'a.b': {'$all': [2]}}, {'a': [{'b': 1}, {'b': [2, 3]}]}, 'T'),
- ('lazyvalidation', "a malformed part of a filter is only rejected if evaluation reaches it: {c: 1, $or: []} is accepted when c differs (what is reached by evaluation only: every key after one that already failed, the names inside $not and $elemMatch, the arguments of the operators; the operator names of a condition are checked whatever its key reaches, see the fixed record lazyunknownop) (Lean: Props.C01.rejects_malformed_full_fails)",
+ ('lazyvalidation', "a malformed part of a filter is only rejected if evaluation reaches it: {c: 1, $or: []} is accepted when c differs (reached by evaluation only: every key after one that already failed and every sub-filter of $and/$or/$nor after the one that decides, the names inside $not and $elemMatch, and the arguments of the operators - e.g. {'a.0': {$in: 5}} and {'a.0': {$not: {$foo: 1}}} are accepted on {a: []}, {a: {$gt: 1, $in: 5}} on {a: 0}; the operator names of a condition itself are checked whatever its key reaches, see the fixed record lazyunknownop) (Lean: Props.C01.rejects_malformed_full_fails)",
   {'c': 1, '$or': []}, {'c': 2}, 'E'),
 ]
 
